@@ -382,7 +382,7 @@ PARTS = {
                      "non-trivial = classes rt-len2..9 and legal fixed widths",
                 oracles={"tagged_rt": o_rt, "tagged_fixed": o_fixed}, classify=classify_rt, search=search_rt,
                 configs_quick=["pinned", "O0"]),
-    "C04": dict(coq_props=["Properties_C04_tagged"], files=FILES, generate=generate_c04,
+    "C04": dict(coq_props=["Properties_C04_tagged", "Properties_C04_readme"], files=FILES, generate=generate_c04,
                 rule="tagged: encoder bytes vs an independent Python reference of the documented sqlite4 format",
                 oracles={"tagged_rt": o_rt_c04}, classify=classify_rt, search=search_rt),
     "C12": dict(coq_props=["Properties_C12_tagged"], files=FILES + ["src/varint.h"], generate=generate_add,
